@@ -5,9 +5,19 @@ import json, os, subprocess, sys, tempfile, xml.etree.ElementTree as ET
 base = json.load(open("/root/.vp/BASELINE.json"))
 fd, path = tempfile.mkstemp(suffix=".xml"); os.close(fd)
 env = dict(os.environ); env.pop("EUPS_VERIF", None)
+_repo = os.environ.get("EUPS_VERIF_REPO", "/repo")
+def _untracked():
+    r = subprocess.run(["git", "-C", _repo, "ls-files", "--others", "--exclude-standard", "tests"], stdout=subprocess.PIPE, text=True)
+    return set(r.stdout.split("\n")) - {""}
+_before = _untracked()
 subprocess.run(["/venv/bin/python", "-m", "pytest", "-ra", "-q", "-p", "no:cacheprovider", "--timeout=900",
                 "--continue-on-collection-errors", "--junitxml=" + path], cwd=os.environ.get("EUPS_VERIF_REPO", "/repo"), env=env,
                stdout=subprocess.DEVNULL, stderr=subprocess.DEVNULL)
+for _f in _untracked() - _before:      # files the suite leaves behind in the source tree
+    try:
+        os.remove(os.path.join(_repo, _f))
+    except OSError:
+        pass
 passed = set()
 for tc in ET.parse(path).getroot().iter("testcase"):
     if not any(c.tag in ("failure", "error", "skipped") for c in tc):
